@@ -187,6 +187,54 @@ def stream_copies(ctx, n, order, tts, aged):
         M.op('decref', abs(u))
 
 
+def stream_large(ctx, n, target):
+    """a manager with several hundred nodes (node numbers beyond every small-integer
+    special case of the host language): redundant tests must still be eliminated and
+    equal functions must still be one reference"""
+    rng = ctx.rng
+    M = Mgr(ctx, f'large n={n} target={target}', n, list(range(n)))
+    full = T.full(n)
+    vs = [M.op('var', j) for j in range(n)]
+    pool = [(v, T.var(j, n)) for j, v in enumerate(vs)]
+    for v, _ in pool:
+        M.op('incref', v)
+    guard = 0
+    while len(M.b) < target and guard < 400:
+        guard += 1
+        (a, ta), (c, tc) = rng.sample(pool, 2)
+        name = rng.choice(['and', 'or', 'xor', 'equiv', 'implies'])
+        r = M.op('apply', rng.choice(gen.ALIASES[name]), a * rng.choice([1, -1]) if False else a, c, None)
+        if r is None:
+            break
+        tr = gen.conn(name, ta, tc, full)
+        if r not in [x for x, _ in pool] and abs(r) != 1:
+            M.op('incref', r)
+            pool.append((r, tr))
+    ctx.count('large-nodes', len(M.b))
+    M.check_table('C02:table', 'large manager')
+    # redundant tests over separately computed equal children
+    for _ in range(12):
+        (f, tf) = rng.choice(pool[n:] or pool)
+        (z, tz) = rng.choice(pool[:n])
+        ctx.case(('large', n, len(M.s.lines)), True)
+        r1 = M.op('ite', z, f, f)
+        a1 = M.op('apply', 'and', z, f, None)
+        a2 = M.op('apply', 'and', -z, f, None)
+        r2 = M.op('apply', 'or', a1, a2, None) if a1 is not None and a2 is not None else None
+        # a parent whose two cofactors are the same function reached by different routes
+        g1 = M.op('apply', 'or', f, z, None)
+        g2 = M.op('apply', 'or', z, f, None)
+        for what, r in (('ite(z, f, f)', r1), ('(z /\\ f) \\/ (~z /\\ f)', r2)):
+            if r != f:
+                ctx.violation('C02:routes-differ', f'{what} gave {r}, f is {f} (manager of {len(M.b)} nodes)', M.case())
+                return
+        if g1 != g2:
+            ctx.violation('C02:routes-differ', f'f \\/ z and z \\/ f are {g1} and {g2}', M.case())
+            return
+        if not M.check_table('C02:table', 'large manager'):
+            return
+
+
 def stream_history(ctx, n, steps):
     rng = ctx.rng
     order = list(range(n))
@@ -337,5 +385,8 @@ def run(ctx):
             order = rng.choice(gen.orders(n))
             stream_copies(ctx, n, order, [rng.getrandbits(1 << n) for _ in range(rng.randint(1, 3))],
                           aged=rng.random() < 0.5)
+    stream_large(ctx, 9, 320 if q else 700)
+    if not q:
+        stream_large(ctx, 10, 1200)
     for i in range(6 if q else 40):
         stream_history(ctx, rng.choice([2, 3, 4]), 30 if q else 60)
